@@ -36,6 +36,10 @@ def sched_chain(rng, coin, shape):
     hot.append(b"\x00\x03\xaa\xbb\xcc")
     hot.append(b"\x6a" + gen.push(b"recurring opreturn payload"))
     hot.append(b"\x00\x10" + rbytes(rng, 16))
+    # the same 20 bytes / key in different roles (P2PKH, P2SH, P2PK, ...): per-worker state keyed by the payload alone would make the
+    # address depend on which role a worker happened to see first
+    from .. import scriptgen
+    hot.extend(list(scriptgen.same_payload_roles(rng))[:18])
     for h, (ntx, nout) in enumerate(shape):
         txs = []
         for ti in range(ntx):
